@@ -63,7 +63,7 @@ class Engine(EngineBase):
     def budget(self, tier):
         if self.prop == "C02":
             return (2200, 55.0) if tier == "quick" else (60000, 900.0)
-        return (3200, 55.0) if tier == "quick" else (90000, 900.0)
+        return (2600, 55.0) if tier == "quick" else (90000, 900.0)
 
     def rule(self):
         return ("seeded operation histories over a small universe (3 keys x 3 values + nested mapping/list "
@@ -104,6 +104,8 @@ class Engine(EngineBase):
                    + ["sp_set"] * 6 + ["sp_del"] * 2 + ["sp_nested"] * 2 + ["sp_assign"] * 2
                    + ["update_sp"] * 2 + ["move"] * 3 + ["clone"] * 3 + ["update_cache", "restart", "restart"]
                    + ["drop", "copy", "copy", "deepcopy", "pickle", "init_project", "rm_cache"])
+            if rng.random() < (0.03 if tier == "quick" else 0.15):
+                mix += ["pickle_fresh"] * 2
             if P == "C03":
                 mix += ["decoy", "emptydir"]
             if P == "C04":
@@ -156,6 +158,9 @@ class Engine(EngineBase):
                 ops.append([k, pi, rng.choice(["bak", "hex31", "hex33", "upper", "file", "tilde"]), h])
             elif k == "emptydir":
                 ops.append([k, pi, small_sp(rng)])
+            elif k == "pickle_fresh":
+                ops.append([k, h, rng.choice([["init"], ["doc_set", rng.choice("pq"), rng.randrange(9)],
+                                              ["remove"], ["read"]])])
         sc["ops"] = ops
         return sc
 
@@ -684,8 +689,6 @@ class Run:
         hd = self.pick(op[1])
         if hd is None:
             return None
-        if hd.refused and self.prop != "C03":
-            return None
         if hd.by_id and not hd.loaded and self.job_of(hd) is None:
             return None  # a by-id handle whose job is gone cannot know its state point
         return hd
@@ -931,6 +934,63 @@ class Run:
         self.handles.append(nh)
         self.probe("pickle")
 
+    def op_pickle_fresh(self, op):
+        """Pickle the handle into a freshly started interpreter, let it do one operation there."""
+        import subprocess
+        import sys
+
+        hd = self.pick(op[1])
+        if hd is None or hd.refused or hd.tainted or not self.knows_sp(hd):
+            return
+        sub = op[2]
+        ncopies = sum(1 for x in self.handles if x.group == hd.group)
+        try:
+            blob = pickle.dumps(hd.obj)
+        except Exception as e:  # noqa: BLE001
+            raise Mismatch("C04", "C04:pickle:dumps-raised", f"pickle.dumps of a {hd.kind} handle raised "
+                           f"{type(e).__name__}: {e}")
+        hd.loaded = True
+        repo = os.environ.get("VERIF_REPO", "/repo")
+        script = (
+            "import sys, pickle, json\n"
+            f"sys.path.insert(0, {repo!r})\n"
+            "sys.dont_write_bytecode = True\n"
+            "import logging; logging.disable(logging.CRITICAL)\n"
+            "job = pickle.loads(sys.stdin.buffer.read())\n"
+            f"sub = {sub!r}\n"
+            "if sub[0] == 'init': job.init()\n"
+            "elif sub[0] == 'doc_set': job.doc[sub[1]] = sub[2]\n"
+            "elif sub[0] == 'remove': job.remove()\n"
+            "print(json.dumps({'id': job.id, 'sp': job.statepoint(), 'path': job.path}))\n"
+        )
+        with self.world.observing():
+            r = subprocess.run([sys.executable, "-c", script], input=blob, capture_output=True, timeout=60)
+        self.probe("pickle_fresh")
+        if r.returncode != 0:
+            err = r.stderr.decode(errors="replace").strip().splitlines()[-1:] or ["?"]
+            fp = "C04:pickle:round-trip-raised:RecursionError" + (":with-live-copy" if ncopies > 1 else "") \
+                if "RecursionError" in err[0] else "C04:pickle:fresh-interpreter-raised"
+            raise Mismatch("C04", "C04:pickle:fresh-interpreter-raised",
+                           f"a {hd.kind} handle ({ncopies} in its copy group) unpickled in a fresh interpreter and "
+                           f"asked to {sub} failed: {err[0][:200]}", fp)
+        import json as _json
+        out = _json.loads(r.stdout.decode().strip().splitlines()[-1])
+        jid = cid(hd.sp)
+        if out["id"] != jid or not same(out["sp"], hd.sp) or \
+                out["path"] != os.path.join(self.pp[hd.proj], "workspace", jid):
+            raise Mismatch("C04", "C04:pickle:fresh-handle-differs",
+                           f"the unpickled handle describes {out}, the original denotes {hd.sp} ({jid[:8]})")
+        if sub[0] == "init" or sub[0] == "doc_set":
+            j = self._ensure(hd)
+            if sub[0] == "doc_set":
+                j["doc"][sub[1]] = sub[2]
+            self.mutations += 1
+        elif sub[0] == "remove":
+            if jid in self.model[hd.proj]:
+                del self.model[hd.proj][jid]
+                self.taint_others(hd.proj, jid)
+            self.emptydirs[hd.proj].discard(jid)
+
     def op_init_project(self, op):
         pi = op[1]
         before = snapshot(self.pp[pi])
@@ -1166,6 +1226,9 @@ class Run:
         try:
             self._coherence2(op)
         except Mismatch as m:
+            if "after a refused state point change" in m.msg:
+                raise Mismatch("C04", "C04:handle:incoherent-after-refused-change", m.msg,
+                               "C04:handle:incoherent-after-refused-change")
             sc = getattr(self, "shortcut", None)
             if sc and m.prop == "C04":
                 raise Mismatch("C04", "C04:assign:" + sc[1], f"{m.msg} [old state point {sc[2]}]",
@@ -1177,10 +1240,10 @@ class Run:
         """C04: every live handle describes the job the model says it denotes."""
         P = "C04"
         for hd in self.handles:
-            if hd.refused or hd.tainted:
+            if hd.tainted:
                 continue
             jid = cid(hd.sp)
-            tag = f"{hd.kind} handle after {op}"
+            tag = f"{hd.kind} handle{' (after a refused state point change)' if hd.refused else ''} after {op}"
             if hd.obj.id != jid:
                 raise Mismatch(P, "C04:handle:id", f"{tag}: id {hd.obj.id[:8]} but denotes {hd.sp} "
                                f"({jid[:8]})", f"C04:handle:{hd.kind}:id-not-following")
